@@ -18,7 +18,7 @@ TraceNext ==
     \/ IsEvent("broken") /\ Broken(Ev.w)
     \/ IsEvent("procsnap") /\ ProcStartOn(Ev.w)
     \/ IsEvent("restart") /\ Restarted
-    \/ IsEvent("setib") /\ (IF Ev.b = "run" THEN OperatorRun(Ev.w) ELSE Other)
+    \/ IsEvent("setib") /\ (IF Ev.b \in {"run", "any"} THEN OperatorRun(Ev.w) ELSE Other)
     \/ IsEvent("final") /\ Final(Ev.timedout, Range(Ev.notfinal), Ev.instances)
     \/ IsEvent("crashed") /\ Crashed
     \/ /\ l <= Len(Trace) /\ Trace[l].ev \notin {"reset", "final", "crashed", "broken", "procsnap", "restart", "setib"}
